@@ -185,10 +185,20 @@ class Ctx:
         fcntl.flock(f, fcntl.LOCK_EX)
         return f
 
-    def coq_make(self, targets, timeout=1500):
-        """build targets with a per-property Makefile (Common + this property's directories) under the tree lock"""
+    def coq_make(self, targets, timeout=1500, remove=(), clean_dirs=()):
+        """build targets with a per-property Makefile (Common + this property's directories) under the tree lock;
+        `remove` (files) and `clean_dirs` (compiled files of whole directories) are deleted under the same lock
+        acquisition, so a concurrent check of the same property cannot rebuild them in between"""
         lk = self._lock()
         try:
+            for f in remove:
+                if os.path.exists(f):
+                    os.remove(f)
+            for sd in clean_dirs:
+                for root, _, files in os.walk(os.path.join(COQ, sd)):
+                    for fn in files:
+                        if fn.endswith((".vo", ".vok", ".vos", ".glob")):
+                            os.remove(os.path.join(root, fn))
             dirs = [self.pid] + [d for d in self.extra_dirs if d != self.pid]
             rc, out = sh(["sh", os.path.join(COQ, "mk_coqproject.sh")] + dirs, cwd=COQ, timeout=120)
             if rc != 0:
@@ -231,17 +241,9 @@ class Ctx:
         for pf in props_files:
             txt = open(os.path.join(COQ, pf)).read()
             theorems += re.findall(r"^(?:Theorem|Corollary)\s+(\w+)", txt, flags=re.M)
-            vo = os.path.join(COQ, pf + "o")
-            if os.path.exists(vo):
-                os.remove(vo)
-        if self.tier == "thorough":
-            # clean rebuild of this property's directories
-            for sd in [pid]:   # own directory only: a dependency's files belong to that property's check
-                for root, _, files in os.walk(os.path.join(COQ, sd)):
-                    for fn in files:
-                        if fn.endswith((".vo", ".vok", ".vos", ".glob")):
-                            os.remove(os.path.join(root, fn))
-        rc, out = self.coq_make([pf + "o" for pf in props_files])
+        vos = [os.path.join(COQ, pf + "o") for pf in props_files]
+        rc, out = self.coq_make([pf + "o" for pf in props_files], remove=vos,
+                                clean_dirs=[pid] if self.tier == "thorough" else ())
         closed = {}
         # Print Assumptions output follows each theorem in order
         toks = list(re.finditer(r"Closed under the global context|Axioms:", out))
@@ -327,7 +329,18 @@ class Ctx:
             base, terms = sh_
             txt = header + "\nDefinition cases := [\n" + ";\n".join(terms) + "\n].\n"
             txt += "Definition M := Eval vm_compute in mismatches (%s) cases.\nPrint M.\n" % chk
-            rc, out = self.coq_eval("cases_%s_%s_%d" % (self.pid, tag, base), txt)
+            name = "cases_%s_%s_%d_p%d" % (self.pid, tag, base, os.getpid())
+            rc, out = self.coq_eval(name, txt)
+            if rc == 0 and os.environ.get("VERIF_KEEP") != "1":
+                for ext in (".v", ".vo", ".vok", ".vos", ".glob"):
+                    try:
+                        os.remove(os.path.join(GEN, name + ext))
+                    except OSError:
+                        pass
+                try:
+                    os.remove(os.path.join(GEN, "." + name + ".aux"))
+                except OSError:
+                    pass
             if rc != 0:
                 return base, None, out
             flat = " ".join(out.split())
@@ -348,7 +361,7 @@ class Ctx:
         return sorted(res)
 
     def coq_show(self, tag, header, expr):
-        rc, out = self.coq_eval("show_%s_%s" % (self.pid, tag), header + "\nEval vm_compute in (%s).\n" % expr)
+        rc, out = self.coq_eval("show_%s_%s_p%d" % (self.pid, tag, os.getpid()), header + "\nEval vm_compute in (%s).\n" % expr)
         return " ".join(out.split())[:2000]
 
     # ------------------------------------------------------------ Go
